@@ -44,6 +44,11 @@ pub struct AisleScenario {
     /// 0 (A), 1 (B) or 2 (C). Empty = all of A, then all of B, then all of C.
     #[serde(default, skip_serializing_if = "Vec::is_empty")]
     pub order: Vec<u8>,
+    /// texts parsed (and dropped) on this thread right before `text`: the file as it was a moment
+    /// ago - a prefix cut at some byte, the text without its last character or final newline, the
+    /// text with something appended. What `parse` returns for `text` may not depend on them.
+    #[serde(default, skip_serializing_if = "Vec::is_empty")]
+    pub prelude: Vec<String>,
 }
 
 #[derive(Default, Clone, Serialize)]
@@ -258,6 +263,11 @@ fn execute_inner(sc: &AisleScenario) -> (Vec<Violation>, AisleStats) {
     let mut st = AisleStats::default();
     cooklang::verif_seam::reseed(sc.hash_seed);
     let text = sc.text.as_str();
+    for p in &sc.prelude {
+        if catch_unwind(AssertUnwindSafe(|| aisle::parse(p).is_ok())).is_err() {
+            let _ = crate::sim::take_last_panic();
+        }
+    }
     // ---- P1
     let parsed = catch_unwind(AssertUnwindSafe(|| aisle::parse(text)));
     let parsed = match parsed {
@@ -656,7 +666,29 @@ pub fn gen_scenario(run_seed: u64) -> AisleScenario {
         } else {
             (None, vec![], vec![])
         };
-        AisleScenario { text, hash_seed: root.fork(4).next_u64(), ops_a, ops_b, other_text, ops_c, order }
+        // the same file a moment ago: earlier versions of `text` parsed right before it (a third of
+        // the large files, a twentieth of the others)
+        let mut r7 = root.fork(7);
+        let mut prelude = Vec::new();
+        if !text.is_empty() && r7.chance(1, if text.len() >= 2048 { 3 } else { 20 }) {
+            for _ in 0..r7.range(1, 2) {
+                let cut = |at: usize| {
+                    let mut at = at.min(text.len());
+                    while !text.is_char_boundary(at) {
+                        at -= 1;
+                    }
+                    text[..at].to_string()
+                };
+                prelude.push(match r7.below(6) {
+                    0 | 1 => cut(r7.below(text.len() + 1)),
+                    2 => cut(text.len() - 1 - r7.below(text.len().min(40))),
+                    3 => text.trim_end().to_string(),
+                    4 => format!("{text}{}", r7.pick_str(&["x", "\nx", "|y", " // c", "\n[z]\n"])),
+                    _ => text.clone(),
+                });
+            }
+        }
+        AisleScenario { text, hash_seed: root.fork(4).next_u64(), ops_a, ops_b, other_text, ops_c, order, prelude }
     }
 }
 
@@ -664,7 +696,7 @@ pub fn gen_scenario(run_seed: u64) -> AisleScenario {
 /// before every call, for one configuration (the enumerated part of C11).
 pub fn enumerate_write_faults(text: &str) -> Vec<AisleScenario> {
     let mut v = Vec::new();
-    let base = AisleScenario { text: text.to_string(), hash_seed: 1, ops_a: vec![AisleOp::Lookup, AisleOp::Reparse], ops_b: vec![AisleOp::Reparse], other_text: None, ops_c: vec![], order: vec![] };
+    let base = AisleScenario { text: text.to_string(), hash_seed: 1, ops_a: vec![AisleOp::Lookup, AisleOp::Reparse], ops_b: vec![AisleOp::Reparse], other_text: None, ops_c: vec![], order: vec![], prelude: vec![] };
     v.push(base);
     let Ok(Ok(conf)) = catch_unwind(AssertUnwindSafe(|| aisle::parse(text))) else { return v };
     let mut w = FaultyWriter::new(vec![], false);
@@ -701,7 +733,7 @@ pub fn enumerate_write_faults(text: &str) -> Vec<AisleScenario> {
             Ok(())
         }
     }
-    let mk = |faults: Vec<WriteFault>| AisleScenario { text: text.to_string(), hash_seed: 1, ops_a: vec![AisleOp::Lookup, AisleOp::Write { faults }, AisleOp::Reparse], ops_b: vec![], other_text: None, ops_c: vec![], order: vec![] };
+    let mk = |faults: Vec<WriteFault>| AisleScenario { text: text.to_string(), hash_seed: 1, ops_a: vec![AisleOp::Lookup, AisleOp::Write { faults }, AisleOp::Reparse], ops_b: vec![], other_text: None, ops_c: vec![], order: vec![], prelude: vec![] };
     let mut vectored_used = false;
     for vectored_mode in [false, true] {
         if vectored_mode && !vectored_used {
@@ -946,7 +978,7 @@ pub fn worker(a: &Args) -> i32 {
                                 }
                             }
                         }
-                        let sc = AisleScenario { text, hash_seed: k, ops_a: vec![], ops_b: vec![], other_text: None, ops_c: vec![], order: vec![] };
+                        let sc = AisleScenario { text, hash_seed: k, ops_a: vec![], ops_b: vec![], other_text: None, ops_c: vec![], order: vec![], prelude: vec![] };
                         let (viol, st) = execute(&sc);
                         out.runs += 1;
                         out.enumerated_dup_positions += 1;
@@ -1043,7 +1075,7 @@ pub fn worker(a: &Args) -> i32 {
                         // a name equal to a category name is not a duplicate
                         _ => format!("[{a0}]\n{a0}|{b0}\n[{b0}]\n{tail}\n"),
                     };
-                    let sc = AisleScenario { text, hash_seed: k, ops_a: vec![AisleOp::Lookup, AisleOp::Reparse], ops_b: vec![], other_text: None, ops_c: vec![], order: vec![] };
+                    let sc = AisleScenario { text, hash_seed: k, ops_a: vec![AisleOp::Lookup, AisleOp::Reparse], ops_b: vec![], other_text: None, ops_c: vec![], order: vec![], prelude: vec![] };
                     let (viol, st) = execute(&sc);
                     out.runs += 1;
                     out.enumerated_dup_positions += 1;
@@ -1129,7 +1161,7 @@ pub fn worker(a: &Args) -> i32 {
                     }
                 }
                 let text = build(lo, hi.min(lo + 64));
-                let sc = AisleScenario { text, hash_seed: f, ops_a: vec![AisleOp::Lookup], ops_b: vec![], other_text: None, ops_c: vec![], order: vec![] };
+                let sc = AisleScenario { text, hash_seed: f, ops_a: vec![AisleOp::Lookup], ops_b: vec![], other_text: None, ops_c: vec![], order: vec![], prelude: vec![] };
                 let (viol, st) = execute(&sc);
                 absorb(&mut out, &sc, &st, &viol, a, None, &replay_dir, &format!("collide-{f}"));
                 if out.violations.len() >= max_viol {
@@ -1177,7 +1209,7 @@ pub fn worker(a: &Args) -> i32 {
                         s.push_str(alpha[(c % k) as usize]);
                         c /= k;
                     }
-                    let sc = AisleScenario { text: s, hash_seed: idx, ops_a: vec![AisleOp::Lookup, AisleOp::Reparse], ops_b: vec![], other_text: None, ops_c: vec![], order: vec![] };
+                    let sc = AisleScenario { text: s, hash_seed: idx, ops_a: vec![AisleOp::Lookup, AisleOp::Reparse], ops_b: vec![], other_text: None, ops_c: vec![], order: vec![], prelude: vec![] };
                     let (viol, st) = execute(&sc);
                     out.exhaustive_strings += 1;
                     out.runs += 1;
